@@ -13,6 +13,8 @@ var numerals = []string{"0", "1", "2", "3", "5", "7", "10", "9", "-1", "-3", "10
 	"1.0", "01", "1e2", "1E2", "-0", "1.10", "9007199254740993", "9007199254740992", "123456789012345678901234567890",
 	"3.14159", "1e-3", "0.001", "12345678901234567890123456789012345678", "1e21", "1e-7", "4.35", "99.99", "-2.5", "1000000"}
 
+var zeroSpellings = []string{"0", "-0", "0.0", "-0.0", "0e0", "-0e5"}
+
 var simpleNumerals = []string{"0", "1", "2", "3", "5", "7", "10", "9", "-1", "-3", "100", "0.5", "1.5", "2.25", "42", "1000"}
 
 func genStr(r *Rng) []byte {
@@ -154,6 +156,13 @@ func genItem(r *Rng, o ValOpts) Item {
 			t = pick(r, allTypes)
 		}
 		it = append(it, KV{[]byte(a.Name), genOfType(r, t, 0, o)})
+	}
+	// zero in its spellings, alone and inside a list: -0 and 0 are one number
+	if r.Chance(25) {
+		it = append(it, KV{[]byte("z0"), AV{T: "N", V: []byte(pick(r, zeroSpellings))}})
+	}
+	if r.Chance(20) {
+		it = append(it, KV{[]byte("lz"), AV{T: "L", L: []AV{{T: "N", V: []byte(pick(r, zeroSpellings))}, S("a")}}})
 	}
 	// attributes that are literally named like the placeholders the printer allocates: an attribute
 	// keeps its own name, a placeholder only stands for a name inside the expression
